@@ -226,8 +226,23 @@ func decodeJSON(b []byte) (interface{}, error) {
 
 var specialTypes = []string{"plain", "with space", "quote\"back\\slash", "ctl\x01\n", "unicode-é世", "<a>&", ""}
 
+// timeRepresentable: has the instant an RFC 3339 form (what JSON uses for a time)?
+func timeRepresentable(t time.Time) bool {
+	_, off := t.Zone()
+	if off < 0 {
+		off = -off
+	}
+	return t.Year() >= 0 && t.Year() <= 9999 && off < 24*3600
+}
+
 func genTime(tp *simrt.Tape) time.Time {
-	switch tp.Choose(5, "time") {
+	switch tp.Choose(8, "time") {
+	case 5:
+		return time.Date(10000, 1, 1, 0, 0, 0, 0, time.UTC) // no RFC 3339 form: cannot be encoded
+	case 6:
+		return time.Date(-1, 6, 1, 0, 0, 0, 0, time.UTC)
+	case 7:
+		return time.Date(2026, 1, 2, 3, 4, 5, 0, time.FixedZone("far", 25*3600))
 	case 0:
 		return time.Time{}
 	case 1:
@@ -308,6 +323,10 @@ func runJSONFormatters(rc *RunCtx) {
 			payload, payloadCopy, encodable := genPair(tp, 1+tp.Choose(3, "depth"))
 			typ := specialTypes[tp.Choose(len(specialTypes), "type")]
 			created := genTime(tp)
+			if !timeRepresentable(created) {
+				encodable = false // the creation time has no JSON form: the formatter has to refuse the event
+				simrt.Probe("json.time-without-rfc3339-form")
+			}
 			e := &el.Event{Type: el.EventType(typ), CreatedAt: created, Payload: payload, Formatted: map[string][]byte{}}
 			if tp.Choose(6, "nilmap") == 0 {
 				e.Formatted = nil
